@@ -67,7 +67,7 @@ SemVerdict(e) ==
             /\ WfState(e.st) /\ StoreOf(e.st) = e.s0 /\ \A v \in Vars : e.s0[v] \in 0..VCap
       r == IF ok THEN Run(e.prog, e.s0) ELSE <<"div">>
       chk == ran /\ ~(e.chk = "accepted" /\ e.chk_hyps = 0 /\ e.hyps = 0 /\ e.chk_goal = e.goal)
-      fin == ok /\ r[1] = "ok" /\ ~(e.goal[1] = e.prog /\ e.goal[2] = e.st /\ WfState(e.goal[3]) /\ StoreOf(e.goal[3]) = r[2])
+      fin == ok /\ r[1] = "ok" /\ ~(e.goal[1] = e.prog /\ WfState(e.goal[2]) /\ StoreOf(e.goal[2]) = e.s0 /\ WfState(e.goal[3]) /\ StoreOf(e.goal[3]) = r[2])
   IN [fails |-> (IF chk THEN {"EvalSemChecked"} ELSE {}) \cup (IF fin THEN {"EvalSemFinal"} ELSE {}),
       nt |-> ok /\ r[1] = "ok", dv |-> e.prog # e.vprog]
 
